@@ -89,7 +89,7 @@ def mutable_ids(roots):
     return s
 
 
-def run(depth):
+def run(depth, budget_s=None):
     from jellyfysh.base.time import Time
     evaluations, sequences, violations = 0, 0, []
     samples = []
@@ -109,12 +109,20 @@ def run(depth):
             node = [c for c in node.children if tuple(c.value.identifier) == ident[:len(c.value.identifier)]][0]
         return node
 
-    for shape in SHAPES:
+    import time as _time
+    t_start = _time.time()
+    truncated = []
+    for shape_no, shape in enumerate(SHAPES):
+        # wall-clock budget (thorough tier): every shape gets an equal share; a shape whose enumeration is cut is reported
+        shape_deadline = None if budget_s is None else t_start + budget_s * (shape_no + 1) / len(SHAPES)
         ids = ids_of(shape)
         roots_, kids = shape
         ops = [("peek", i) for i in ids] + [("move", i) for i in ids] + [("stop", i) for i in ids] + \
               [("stop-parent", i) for i in ids if len(i) == 2] + [("active",)]
         for seq in itertools.product(ops, repeat=depth):
+            if shape_deadline is not None and sequences % 512 == 0 and _time.time() > shape_deadline:
+                truncated.append(list(shape))
+                break
             sequences += 1
             sh = build(shape)
             model = flat(sh.extract_global_state())
@@ -203,8 +211,8 @@ def run(depth):
         if len(violations) >= 5:
             break
     return {"sequences": sequences, "evaluations": evaluations, "violations": violations, "samples": samples,
-            "shapes": SHAPES, "depth": depth}
+            "shapes": SHAPES, "depth": depth, "truncated_shapes": truncated}
 
 
 if __name__ == "__main__":
-    print("BOUNDED-RESULT " + json.dumps(run(int(sys.argv[1])), default=str))
+    print("BOUNDED-RESULT " + json.dumps(run(int(sys.argv[1]), float(sys.argv[2]) if len(sys.argv) > 2 else None), default=str))
